@@ -22,7 +22,7 @@ class ElementsUntilEndOfLineParser2(Generic[ELEMENT], ParserFromTokens[List[ELEM
         ret_val = []
 
         while not token_parser.is_at_eol:
-            if token_parser.remaining_part_of_current_line.strip() == defs.CONTINUATION_TOKEN:
+            if token_parser.remaining_part_of_current_line.strip(' \t\r\n') == defs.CONTINUATION_TOKEN:
                 token_parser.consume_current_line_as_string_of_remaining_part_of_current_line()
                 continue
             if token_parser.has_valid_head_matching(defs.IS_STOP_AT_TOKEN):
